@@ -25,10 +25,17 @@ TOL = "(1#131072)"          # 2^-17: float32 rescale / scale arithmetic vs exact
 
 # ------------------------------------------------------------------------------------------ helpers
 
+CTX = {"latent": None, "pin": True, "seed": 0}      # per-case context set by run_impl
+
+
 def small_cfg(kind="vec"):
     if kind in ("vec", "disc"):
-        return {"encoder_config": {"hidden_size": [8]}, "head_config": {"hidden_size": [8]}}
-    return {"head_config": {"hidden_size": [8]}}          # partial configuration: default encoder for the space
+        cfg = {"encoder_config": {"hidden_size": [8]}, "head_config": {"hidden_size": [8]}}
+    else:
+        cfg = {"head_config": {"hidden_size": [8]}}       # partial configuration: default encoder for the space
+    if CTX["latent"] is not None:                          # latent dimension AT its configured bound
+        cfg["latent_dim"] = {"min": 8, "max": 128}[CTX["latent"]]
+    return cfg
 
 
 def obs_space_of(kind):
@@ -63,6 +70,15 @@ def pin(net, vec):
     """bias trick: zero every parameter, then set the last bias of matching length to vec"""
     with torch.no_grad():
         ps = list(net.named_parameters())
+        if not CTX["pin"]:
+            # non-uniform weights: seeded random parameters, the outputs then depend on the observation;
+            # they are recorded and the recorded values go to the model and the oracle
+            g = torch.Generator().manual_seed(CTX["seed"])
+            for n, p in ps:
+                p.copy_(torch.randn(p.shape, generator=g) * (0.1 if "norm" in n and n.endswith("bias") else 0.7))
+                if "norm" in n and n.endswith("weight"):
+                    p.add_(1.0)
+            return
         for _, p in ps:
             p.zero_()
         cands = [p for n, p in ps if n.endswith("bias") and tuple(p.shape) == (len(vec),) and "norm" not in n]
@@ -259,17 +275,56 @@ class C14(vlib.Driver):
         """fresh agent of this configuration, or (case["hist"]) the agent after a history of real evolutionary
         operations; the callers re-install the pinned outputs afterwards (the networks were rebuilt)"""
         hist = tuple(getattr(self, "_hist", None) or ())
-        k = (key, hist)
+        wrap = getattr(self, "_wrap", None)
+        k = (key, hist, wrap, CTX["latent"])
         if k not in self.agents:
-            ag = build()
+            obj = build()                      # wrap == "rsnorm_pop": already an RSNorm from Algo.population(...)
+            if wrap == "rsnorm":
+                from agilerl.wrappers.agent import RSNorm
+                obj = RSNorm(obj)
             applied = []
             for op in hist:
-                ag, name = self.apply_op(ag, op)
+                obj, name = self.apply_op(obj, op)
                 applied.append(name)
-            self.agents[k] = ag
+            self.agents[k] = obj
             self.applied[k] = applied
         self._applied = self.applied.get(k, [])
-        return self.agents[k]
+        obj = self.agents[k]
+        self._callee = obj                     # what the training loops call
+        return obj.agent if wrap else obj      # the algorithm itself (networks to pin, noise to record)
+
+    def make(self, cls, obs_space, act_space, **kw):
+        """build the learner; wrap == "rsnorm_pop": through Algo.population(..., wrapper_cls=RSNorm)"""
+        if getattr(self, "_wrap", None) == "rsnorm_pop":
+            from agilerl.wrappers.agent import RSNorm
+            return cls.population(1, obs_space, act_space, wrapper_cls=RSNorm, **kw)[0]
+        return cls(obs_space, act_space, **kw)
+
+    def act(self, ag, obs, **named):
+        """call get_action on what the caller holds (the agent or its wrapper); arguments by keyword, as the training
+        loops and test() pass them, or positionally in signature order (case["args"] == "pos")"""
+        callee = getattr(self, "_callee", None) or ag
+        if getattr(self, "_argstyle", "kw") == "min":       # rely on the defaults of get_action wherever the value is the default
+            import inspect
+            dflt = {n: p.default for n, p in inspect.signature(type(ag).get_action).parameters.items()}
+            named = {n: v for n, v in named.items()
+                     if not (n in dflt and (v is dflt[n] or (isinstance(v, (int, float, bool)) and v == dflt[n])))}
+            return callee.get_action(obs, **named)
+        if getattr(self, "_argstyle", "kw") == "pos":
+            return callee.get_action(obs, *self.positional(ag, named))
+        return callee.get_action(obs, **named)
+
+    @staticmethod
+    def positional(ag, named):
+        import inspect
+        params = [p for p in inspect.signature(type(ag).get_action).parameters if p not in ("self",)][1:]
+        vals = []
+        for p in params:
+            if p not in named:
+                break
+            vals.append(named[p])
+        assert len(vals) == len(named), f"cannot pass {list(named)} positionally to {type(ag).__name__}.get_action{params}"
+        return vals
 
     MUT = None
 
@@ -281,7 +336,8 @@ class C14(vlib.Driver):
             C14.MUT = mm.Mutations(0, 1, 0.5, 1, 1, 0, rand_seed=7)
         m = C14.MUT
         if op.startswith("arch:"):
-            pol = ag.actor if hasattr(ag, "actor") else ag.actors[0]
+            inner = ag.agent if hasattr(ag, "agent_get_action") else ag
+            pol = inner.actor if hasattr(inner, "actor") else inner.actors[0]
             methods = sorted(pol.mutation_methods)
             want = op[5:]
             if want not in methods:          # e.g. encoder.add_node on a multi-input encoder: take the corresponding one
@@ -302,7 +358,7 @@ class C14(vlib.Driver):
             f = d / f"agent_{id(ag)}.pt"
             ag.save_checkpoint(str(f))
             try:
-                new = type(ag).load(str(f))
+                new = type(getattr(ag, "agent", ag) if hasattr(ag, "agent_get_action") else ag).load(str(f))
             finally:
                 f.unlink(missing_ok=True)
             return new, op
@@ -318,14 +374,109 @@ class C14(vlib.Driver):
         cases += self.gen_maddpg(tier, rng)
         cases += self.gen_ppo(tier, rng)
         cases += self.gen_history(cases, tier, rng)
+        cases += self.gen_wrapped(cases, tier, rng)
+        cases += self.gen_audit(cases, tier, rng)
         return cases
+
+    def gen_audit(self, prev, tier, rng):
+        """inputs no other generator produces: caller-side dict key order != agent_ids, get_action defaults relied upon,
+        non-uniform (random, observation-dependent) weights, latent dimension at its configured bound before a latent mutation"""
+        out = []
+        per = 4 if tier == "quick" else 12
+        fresh = [c for c in prev if not c.get("hist") and not c.get("wrap") and c.get("args", "kw") == "kw"]
+
+        def take(pred, k):
+            pool = [c for c in fresh if pred(c)]
+            return [dict(pool[(i * 11 + 3) % len(pool)]) for i in range(k)] if pool else []
+        # key order
+        for fam in ("ippo", "maddpg_disc", "matd3_disc", "maddpg_cont", "matd3_cont"):
+            for c in take(lambda c, fam=fam: c["fam"] == fam and (c.get("masks") is not None or c.get("eda") is not None or fam.endswith("cont")), per * 2):
+                c["korder"] = "rev"
+                out.append(c)
+        # defaults relied upon
+        for pred in (lambda c: c["fam"] == "dqn" and c["eps"] == 0.0, lambda c: c["fam"] == "dqn" and c["masks"] is None,
+                     lambda c: c["fam"] == "cqn" and (c["eps"] == 0.0 or c["masks"] is None),
+                     lambda c: c["fam"] == "rainbow" and c["training"], lambda c: c["fam"] == "rainbow" and c["masks"] is None,
+                     lambda c: c["fam"] in ("ddpg", "td3") and c["training"] and c["obs"] == "vec",
+                     lambda c: c["fam"].startswith(("maddpg", "matd3")) and c["training"],
+                     lambda c: c["fam"] == "ppo_disc" and c["masks"] is None, lambda c: c["fam"] == "ippo" and c["masks"] is None):
+            for c in take(pred, per):
+                c["args"] = "min"
+                out.append(c)
+        # non-uniform weights (recorded outputs feed model and oracle)
+        for pred in (lambda c: c["fam"] == "dqn" and c["masks"] is not None and not c["single"],
+                     lambda c: c["fam"] == "dqn" and c["obs"] == "dict", lambda c: c["fam"] == "cqn" and c["masks"] is not None,
+                     lambda c: c["fam"] in ("ddpg", "td3") and c["act"] in ("Tanh", "Sigmoid") and c["box"] in ("asym", "perdim"),
+                     lambda c: c["fam"] in ("maddpg_cont", "matd3_cont") and c["act"] == "Tanh",
+                     lambda c: c["fam"] in ("maddpg_disc", "matd3_disc"),
+                     lambda c: c["fam"] == "ppo_box" and not c["training"] and c["box"] in ("asym", "perdim")):
+            for c in take(pred, per * 2):
+                c["pin"] = False
+                c["oseed"] = rng.randrange(10 ** 6)
+                out.append(c)
+        # latent dimension at its bound, then the latent mutation that would cross it (and its opposite)
+        for pred in (lambda c: c["fam"] == "dqn" and c["masks"] is not None and c["obs"] == "vec" and not c["single"],
+                     lambda c: c["fam"] == "ddpg" and c["act"] == "Tanh" and c["box"] == "asym" and c["obs"] == "vec",
+                     lambda c: c["fam"] == "ppo_box" and c["squash"] and not c["training"] and c.get("obs", "vec") == "vec",
+                     lambda c: c["fam"] == "maddpg_cont" and c["act"] == "Tanh" and not c["training"],
+                     lambda c: c["fam"] == "ppo_disc" and c["masks"] is not None and c.get("obs", "vec") == "vec"):
+            for lat, ops in (("max", ["arch:add_latent_node"]), ("max", ["arch:remove_latent_node", "clone"]),
+                             ("min", ["arch:remove_latent_node"]), ("min", ["arch:add_latent_node", "ckpt"])):
+                for c in take(pred, 1):
+                    c["latent"] = lat
+                    c["hist"] = ops
+                    out.append(c)
+        return out
+
+    WRAPS = [(None, "pos", None), ("rsnorm", "kw", None), ("rsnorm", "pos", None), ("rsnorm_pop", "kw", None),
+             ("rsnorm", "kw", ["clone"]), ("rsnorm_pop", "kw", ["ckpt"]), ("rsnorm", "kw", ["arch:add_latent_node"])]
+
+    def gen_wrapped(self, fresh, tier, rng):
+        """the same calls through AgentWrapper/RSNorm (RSNorm(agent) and Algo.population(wrapper_cls=RSNorm)), every
+        get_action argument by keyword (as the training loops and test() do) and positionally"""
+        pools = {}
+        for c in fresh:
+            if c.get("hist") or c.get("obs", "vec") != "vec":
+                continue
+            f = c["fam"]
+            name = None
+            if f in ("dqn", "rainbow", "cqn") and c["masks"] is not None and any(0 in m for m in c["masks"]):
+                name = f + (":single" if c["single"] else "")
+            elif f in ("ucb", "ts") and c["mask"] is not None and 0 in c["mask"]:
+                name = f
+            elif f == "ppo_disc" and c["masks"] is not None:
+                name = "ppo_disc:" + c["space"]
+            elif f in ("ippo", "maddpg_disc", "matd3_disc") and c["masks"] is not None:
+                name = f + (":single" if c["single"] else "")
+            elif f in ("ddpg", "td3", "maddpg_cont", "matd3_cont") and c.get("box", "asym") in ("asym", "perdim") and c.get("act") == "Tanh":
+                name = f + (":train" if c["training"] else ":eval")
+            elif f == "ppo_box" and not c["training"] and c["box"] == "asym":
+                name = "ppo_box:" + ("squash" if c["squash"] else "clip")
+            if name:
+                pools.setdefault(name, []).append(c)
+        out = []
+        per = 3 if tier == "quick" else 8
+        for name in sorted(pools):
+            pool = pools[name]
+            for wi, (wrap, style, hist) in enumerate(self.WRAPS):
+                for k in range(per if hist is None else 1):
+                    c = dict(pool[(wi * 5 + k * 7) % len(pool)])
+                    if wrap:
+                        c["wrap"] = wrap
+                    c["args"] = style
+                    if hist:
+                        c["hist"] = list(hist)
+                    c["oseed"] = rng.randrange(10 ** 6)
+                    out.append(c)
+        return out
 
     ARCH = ["head_net.add_layer", "head_net.remove_layer", "head_net.add_node", "head_net.remove_node",
             "encoder.add_node", "encoder.remove_node", "add_latent_node", "remove_latent_node"]
     HISTORIES = [["arch:" + a] for a in ARCH] + [["param"], ["act"], ["clone"], ["ckpt"],
                                                  ["arch:add_latent_node", "clone"], ["clone", "arch:remove_latent_node"],
                                                  ["arch:add_latent_node", "ckpt"], ["arch:head_net.add_layer", "arch:add_latent_node"],
-                                                 ["arch:remove_latent_node", "arch:add_latent_node", "param"]]
+                                                 ["arch:remove_latent_node", "arch:add_latent_node", "param"],
+                                                 ["clone", "arch:add_latent_node", "clone"], ["arch:head_net.add_node", "ckpt"]]
 
     def gen_history(self, fresh, tier, rng):
         """the same calls on agents that first went through a history of evolutionary operations"""
@@ -608,11 +759,17 @@ class C14(vlib.Driver):
     # ---------------------------------------------------------------- implementation
     def run_impl(self, case):
         self._hist = case.get("hist")
+        self._wrap = case.get("wrap")
+        self._argstyle = case.get("args", "kw")
         self._applied = []
+        CTX.update(latent=case.get("latent"), pin=case.get("pin", True), seed=case.get("oseed", 0))
         try:
             obs = getattr(self, "run_" + case["fam"].split("_")[0])(case)
         finally:
-            self._hist = None
+            self._hist = self._wrap = None
+            self._argstyle = "kw"
+            CTX.update(latent=None, pin=True)
+            self._callee = None
         if case.get("hist"):
             obs["hist_applied"] = list(self._applied)
         return obs
@@ -631,14 +788,14 @@ class C14(vlib.Driver):
     def run_dqn(self, case):
         from agilerl.algorithms.dqn import DQN
         n, kind = case["n"], case["obs"]
-        ag = self.agent(("dqn", kind, n), lambda: DQN(obs_space_of(kind), spaces.Discrete(n), net_config=small_cfg(kind)))
+        ag = self.agent(("dqn", kind, n), lambda: self.make(DQN, obs_space_of(kind), spaces.Discrete(n), net_config=small_cfg(kind)))
         pin(ag.actor, case["q"])
         B = len(case["coins"])
         obs = make_obs(kind, B, case["single"], random.Random(case["oseed"]))
         mask = mask_array(case["masks"], case["single"], case.get("maskfmt"))
         script = torch_uniform_script({(B, n): case["u"], (B,): case["coins"]})
         with wrap_forward(ag.actor) as rec, script:
-            out, err = self.call(lambda: ag.get_action(obs, epsilon=case["eps"], action_mask=mask))
+            out, err = self.call(lambda: self.act(ag, obs, epsilon=case["eps"], action_mask=mask))
         if err:
             return {"error": err}
         return {"action": np.asarray(out).tolist(), "shape": list(np.asarray(out).shape),
@@ -652,7 +809,7 @@ class C14(vlib.Driver):
         def build():
             cfg = small_cfg(kind)
             cfg["head_config"]["output_activation"] = act
-            return cls(obs_space_of(kind), np_box(self.BOXES[bname]), net_config=cfg, share_encoders=False,
+            return self.make(cls, obs_space_of(kind), np_box(self.BOXES[bname]), net_config=cfg, share_encoders=False,
                        vect_noise_dim=B, O_U_noise=True, expl_noise=1.0, dt=1.0, theta=0.25)
         ag = self.agent((fam, bname, act, B, kind), build)
         ag.O_U_noise = ou
@@ -675,7 +832,7 @@ class C14(vlib.Driver):
         h = head_seq.register_forward_hook(lambda m, i, o: ys.append(o.detach().clone()))
         try:
             with record_attr_call(ag, "action_noise") as rn, patched((np.random, "normal", normal)):
-                out, err = self.call(lambda: ag.get_action(obs, training=case["training"]))
+                out, err = self.call(lambda: self.act(ag, obs, training=case["training"]))
         finally:
             h.remove()
         if err:
@@ -692,12 +849,12 @@ class C14(vlib.Driver):
         from agilerl.algorithms.dqn_rainbow import RainbowDQN
         n, kind = case["n"], case["obs"]
         cfg = {"encoder_config": {"hidden_size": [8]}} if kind in ("vec", "disc") else {}
-        ag = self.agent(("rainbow", kind, n), lambda: RainbowDQN(obs_space_of(kind), spaces.Discrete(n), net_config=cfg))
+        ag = self.agent(("rainbow", kind, n), lambda: self.make(RainbowDQN, obs_space_of(kind), spaces.Discrete(n), net_config=cfg))
         B = len(case["vals"])
         obs = make_obs(kind, B, case["single"], random.Random(case["oseed"]))
         mask = mask_array(case["masks"], case["single"], case.get("maskfmt"))
         with wrap_forward(ag.actor, replace=case["vals"]) as rec:
-            out, err = self.call(lambda: ag.get_action(obs, action_mask=mask, training=case["training"]))
+            out, err = self.call(lambda: self.act(ag, obs, action_mask=mask, training=case["training"]))
         if err:
             return {"error": err}
         out = np.asarray(out)
@@ -707,7 +864,7 @@ class C14(vlib.Driver):
     def run_cqn(self, case):
         from agilerl.algorithms.cqn import CQN
         n, kind = case["n"], case["obs"]
-        ag = self.agent(("cqn", kind, n), lambda: CQN(obs_space_of(kind), spaces.Discrete(n), net_config=small_cfg(kind)))
+        ag = self.agent(("cqn", kind, n), lambda: self.make(CQN, obs_space_of(kind), spaces.Discrete(n), net_config=small_cfg(kind)))
         pin(ag.actor, case["q"])
         B = len(case["u"])
         obs = make_obs(kind, B, case["single"], random.Random(case["oseed"]))
@@ -733,7 +890,7 @@ class C14(vlib.Driver):
             return np.array(case["r"])
         with wrap_forward(ag.actor) as rec, patched((random, "random", coin), (np.random, "uniform", uniform),
                                                     (np.random, "randint", randint)):
-            out, err = self.call(lambda: ag.get_action(obs, epsilon=case["eps"], action_mask=mask))
+            out, err = self.call(lambda: self.act(ag, obs, epsilon=case["eps"], action_mask=mask))
         if err:
             return {"error": err}
         out = np.asarray(out)
@@ -745,11 +902,11 @@ class C14(vlib.Driver):
         from agilerl.algorithms.neural_ucb_bandit import NeuralUCB
         n, fam = case["n"], case["fam"]
         cls = {"ucb": NeuralUCB, "ts": NeuralTS}[fam]
-        ag = self.agent((fam, n), lambda: cls(spaces.Box(-1, 1, (4,), np.float32), spaces.Discrete(n), net_config=small_cfg()))
+        ag = self.agent((fam, n), lambda: self.make(cls, spaces.Box(-1, 1, (4,), np.float32), spaces.Discrete(n), net_config=small_cfg()))
         ctx = np.random.RandomState(case["oseed"]).uniform(-1, 1, (n, 4)).astype(np.float32)
         mask = None if case["mask"] is None else np.array(case["mask"])
         with wrap_forward(ag.actor, replace=[[v] for v in case["vals"]]) as rec:
-            out, err = self.call(lambda: ag.get_action(ctx, action_mask=mask))
+            out, err = self.call(lambda: self.act(ag, ctx, action_mask=mask))
         if err:
             return {"error": err}
         out = np.asarray(out)
@@ -769,7 +926,7 @@ class C14(vlib.Driver):
             cfg = small_cfg()
             if act != "default":
                 cfg["head_config"]["output_activation"] = act
-            return cls(observation_spaces=[obs_space_of("vec"), obs_space_of("vec")], action_spaces=act_spaces,
+            return self.make(cls, [obs_space_of("vec"), obs_space_of("vec")], act_spaces,
                        agent_ids=self.MA_IDS, net_config=cfg, vect_noise_dim=B, O_U_noise=True, expl_noise=1.0, dt=1.0, theta=0.25)
         ag = self.agent((fam, key, act, B), build)
         ag.O_U_noise = ou
@@ -820,6 +977,9 @@ class C14(vlib.Driver):
             ag.current_noise[i] = torch.zeros_like(ag.current_noise[i])
         rng = random.Random(case["oseed"])
         obs = {a: make_obs("vec", B, case["single"], rng) for a in self.MA_IDS}
+        rev = case.get("korder") == "rev"        # caller-side key order differs from agent_ids
+        if rev:
+            obs = dict(reversed(list(obs.items())))
         infos = {a: {} for a in self.MA_IDS}
         if kind == "disc" and case["masks"] is not None:
             for i, a in enumerate(self.MA_IDS):
@@ -836,13 +996,15 @@ class C14(vlib.Driver):
                     infos[a]["env_defined_actions"] = (None if rows[0] is None else int(rows[0])) if case["single"] else arr
         if all(not v for v in infos.values()):
             infos = None
+        elif rev:
+            infos = dict(reversed(list(infos.items())))
         ys = [[] for _ in range(nag)]
         hooks = [ag.actors[i].head_net.model.register_forward_hook(lambda m, inp, o, i=i: ys[i].append(o.detach().clone()))
                  for i in range(nag)]
         gumbel = torch_uniform_script({(B, dims[0]): [[0.5] * dims[0]] * B})
         try:
             with record_attr_call(ag, "action_noise") as rn, self.ma_noise_script(case["noise"]), gumbel:
-                out, err = self.call(lambda: ag.get_action(obs, training=case["training"], infos=infos))
+                out, err = self.call(lambda: self.act(ag, obs, training=case["training"], infos=infos))
         finally:
             for h in hooks:
                 h.remove()
@@ -890,14 +1052,14 @@ class C14(vlib.Driver):
                 cfg = small_cfg(okind)
                 if sq:
                     cfg["squash_output"] = True
-                return PPO(obs_space_of(okind), np_box(box), net_config=cfg, share_encoders=False)
+                return self.make(PPO, obs_space_of(okind), np_box(box), net_config=cfg, share_encoders=False)
             ag = self.agent(("ppo_box", bname, sq, okind), build)
             pin(ag.actor, case["loc"])
             ag.set_training_mode(case["training"])
             obs = make_obs(okind, B, case["single"], random.Random(case["oseed"]))
             rec = []
             with self.normal_sample_script(case["z"], rec):
-                out, err = self.call(lambda: ag.get_action(obs))
+                out, err = self.call(lambda: self.act(ag, obs))
             ag.set_training_mode(True)
             if err:
                 return {"error": err}
@@ -911,7 +1073,7 @@ class C14(vlib.Driver):
               "multibinary": lambda: spaces.MultiBinary(nvec[0])}[kind]()
         okind = case.get("obs", "vec")
         ag = self.agent(("ppo_disc", kind, tuple(nvec), okind),
-                        lambda: PPO(obs_space_of(okind), sp, net_config=small_cfg(okind), share_encoders=False))
+                        lambda: self.make(PPO, obs_space_of(okind), sp, net_config=small_cfg(okind), share_encoders=False))
         pin(ag.actor, case["logits"])
         ag.set_training_mode(case["training"])
         B = len(case["masks"]) if case["masks"] is not None else case["B"]
@@ -920,7 +1082,7 @@ class C14(vlib.Driver):
         acts, support, err = [], None, None
         for sd in range(case["seeds"]):
             torch.manual_seed(case["oseed"] + sd)
-            out, err = self.call(lambda: ag.get_action(obs, action_mask=mask))
+            out, err = self.call(lambda: self.act(ag, obs, action_mask=mask))
             if err:
                 break
             a = np.asarray(out[0])
@@ -949,9 +1111,9 @@ class C14(vlib.Driver):
         box = self.BOXES[bname]
         B, d = case["B"], len(box)
         vec = obs_space_of("vec")
-        ag = self.agent(("ippo", n, bname), lambda: IPPO(observation_spaces=[vec, vec, vec],
-                                                          action_spaces=[spaces.Discrete(n), spaces.Discrete(n), np_box(box)],
-                                                          agent_ids=self.IPPO_IDS, net_config=small_cfg()))
+        ag = self.agent(("ippo", n, bname), lambda: self.make(IPPO, [vec, vec, vec],
+                                                               [spaces.Discrete(n), spaces.Discrete(n), np_box(box)],
+                                                               agent_ids=self.IPPO_IDS, net_config=small_cfg()))
         pin(ag.actors[0], case["logits"])
         pin(ag.actors[1], case["loc"])
         ag.set_training_mode(case["training"])
@@ -962,11 +1124,15 @@ class C14(vlib.Driver):
             infos = {"b_0": {}}
             for i, a in enumerate(("a_0", "a_1")):
                 infos[a] = {"action_mask": np.array(case["masks"][i][0] if case["single"] else case["masks"][i])}
+        if case.get("korder") == "rev":          # caller-side key order differs from agent_ids (obs and infos differently)
+            obs = dict(reversed(list(obs.items())))
+            if infos is not None:
+                infos = {a: infos[a] for a in ("a_1", "b_0", "a_0")}
         acts, support, err, rec = [], None, None, []
         with self.normal_sample_script(case["z"], rec):
             for sd in range(case["seeds"]):
                 torch.manual_seed(case["oseed"] + sd)
-                out, err = self.call(lambda: ag.get_action(obs, infos=infos))
+                out, err = self.call(lambda: self.act(ag, obs, infos=infos))
                 if err:
                     break
                 ad = out[0]
@@ -1116,6 +1282,8 @@ class C14(vlib.Driver):
             return ("squash" if case.get("squash") else "clip") + ("-train" if case.get("training") else "-eval")
         if fam == "cqn" and case["obs"] in ("dict", "tuple"):
             return "composite-obs"
+        if case.get("wrap"):
+            return "rsnorm"
         return "call"
 
     def oracle_dqn(self, case, obs):
@@ -1125,8 +1293,8 @@ class C14(vlib.Driver):
         if obs["shape"] != [B] or obs["dtype_kind"] not in "iu":
             return [Violation("shape", "dqn:shape", f"action has shape {obs['shape']} kind {obs['dtype_kind']}, expected ({B},) integers")]
         masks = case["masks"] if case["masks"] is not None else [[1] * n] * B
-        q = np.asarray(case["q"], dtype=np.float64)
         for r in range(B):
+            q = np.asarray(case["q"] if case.get("pin", True) else obs["q"][r], dtype=np.float64)
             ar = int(a[r])
             if not (0 <= ar < n):
                 out.append(Violation("member", "dqn:not-in-space", f"row {r}: action {ar} not in Discrete({n})"))
@@ -1214,7 +1382,7 @@ class C14(vlib.Driver):
             comp = ":composite-obs" if case["obs"] in ("dict", "tuple") else ""
             return [Violation("shape", f"cqn:shape{comp}", f"{B} observation(s) of kind {case['obs']} but the action has shape "
                               f"{obs['shape']} (eps {case['eps']}, coin {case['coin']}, draws requested {obs['used'].get('size_mismatch')})")]
-        return self.discrete_rows("cqn", case["n"], obs["action"], masks, [case["q"]] * B, [greedy] * B,
+        return self.discrete_rows("cqn", case["n"], obs["action"], masks, [case["q"]] * B if case.get("pin", True) else obs["q"], [greedy] * B,
                                   obs["shape"] == [B] and obs["dtype_kind"] in "iu",
                                   f"(eps {case['eps']}, coin {case['coin']}, draws {case['u']})")
 
@@ -1381,6 +1549,9 @@ class C14(vlib.Driver):
         fam = case["fam"]
         labs = [f"fam={fam}", f"obs={case.get('obs', 'vec')}", "single" if case.get("single") else "batched"]
         labs += ["history=" + "+".join(obs.get("hist_applied", case["hist"]))] if case.get("hist") else ["history=fresh"]
+        labs += [f"wrapper={case.get('wrap', 'none')}", f"args={case.get('args', 'kw')}",
+                 f"weights={'pinned' if case.get('pin', True) else 'random'}", f"key-order={case.get('korder', 'agent_ids')}",
+                 f"latent={case.get('latent', 'default')}"]
         if fam == "dqn":
             labs += [f"n={case['n']}", f"eps={case['eps']}", "mask=none" if case["masks"] is None else "mask=given",
                      f"maskfmt={case.get('maskfmt', 'array')}"]
